@@ -60,7 +60,7 @@ def run(ctx):
     from .c18 import _r1 as write_dominates_ok
     write_dominates_ok(ctx, W)
     ctx.include("C18", rules=("R11", "R12", "R9", "R2"))
-    ctx.include("C01", rules=("R1", "R7"))      # what else may change or delete a recorded lease before t + L
+    ctx.include("C01", rules=("R1", "R7", "R3"))      # what else may change or delete a recorded lease before t + L
     from . import c19
     c19.lease_bounds(ctx)
     _r5_reply_leaves_the_dispatcher_untouched(ctx)
